@@ -264,4 +264,17 @@ def r20_4(ctx: Ctx):
     return obs
 
 
-RULES = [("R20.1", r20_1, 40), ("R20.2", r20_2, 4), ("R20.3", r20_3, 5), ("R20.4", r20_4, 9)]
+def r20_5(ctx: Ctx):
+    """R20.5 the best fitness the reports print (header, level blocks, deme lines, the *** marker) is the best of the recorded
+    histories: the best accessors of the tree and of every deme class are the maximum over the complete history and no deme
+    class overrides them (R04.1)."""
+    from . import c04
+
+    out = []
+    for o in c04.r04_1(ctx):
+        o.rule = "R20.5"
+        out.append(o)
+    return out
+
+
+RULES = [("R20.1", r20_1, 40), ("R20.2", r20_2, 4), ("R20.3", r20_3, 5), ("R20.4", r20_4, 9), ("R20.5", r20_5, 3)]
